@@ -349,6 +349,19 @@ def per_model_loop_rule(F, rep, methods):
     (a `?` inside such a loop in a helper is the same defect)."""
     rid = rep.rule("R17.6", "per-model loops (load directory, deploy) never leave the loop because one model failed: no `?`, return or break in their bodies")
     PER_MODEL = ("dmntk_model::parse", W + "::add", "dmntk_model_evaluator::model_evaluator::ModelEvaluator::new")
+    # a helper method that does the work for one model (it calls one of the three outside any loop of its own) is per-model work as well: `for f in files { self.load_model(f) }`
+    grew = True
+    while grew:
+        grew = False
+        for name, h in methods.items():
+            if name in PER_MODEL:
+                continue
+            loops = [lp for lp, _ in find_hir(h["body"], lambda x: x.get("k") == "Loop")]
+            for c, _ in find_hir(h["body"], lambda x: x.get("k") in ("Call", "MethodCall") and (x.get("callee") or "") in PER_MODEL):
+                if not any(find_hir(lp, lambda y: y is c) for lp in loops) and not adaptor_closures(h, PER_MODEL):
+                    PER_MODEL = PER_MODEL + (name,)
+                    grew = True
+                    break
     n = 0
     for name, h in sorted(methods.items()):
         for lp, _ in find_hir(h["body"], lambda x: x.get("k") == "Loop"):
